@@ -13,4 +13,5 @@ echo "== demo WITH patch"; GOPROXY=off timeout 1800 go test -count=1 -run "$RUN"
 rm -f $W/$PKG/zz_seed_*
 echo "== ./check $P against patched tree"
 cd /verif && VERIF_REPO=$W timeout 3000 ./check $P 2>&1 | grep -E "VIOLATION|KNOWN|INFRA|done:" | cut -c1-300 | head -6
+git -C /verif checkout -- evidence/$P.json   # the run above wrote evidence about the patched tree
 git -C /repo worktree remove --force $W
